@@ -1190,6 +1190,29 @@ Section AngleGuard.
   Qed.
 End AngleGuard.
 
+(* ================================================================== closed form of the angle's Jacobian derivative *)
+Section AngleJacobian.
+  Variable cell : option RV.
+  Variable mass : nat -> R.
+  Variable pos : RF.
+  (* jd = (pi/180) cot(theta) = (pi/180) cos(theta) / sqrt(1 - cos^2(theta)), theta the angle in radians *)
+  Lemma angle_jd_closed g1 g2 g3 os :
+    ang_cos Rops cell mass pos g1 g2 g3 * ang_cos Rops cell mass pos g1 g2 g3 < 1 ->
+    cvc_jd Rops PI cell mass pos (CAngle g1 g2 g3 os) =
+      PI / 180 * (ang_cos Rops cell mass pos g1 g2 g3 / sqrt (1 - ang_cos Rops cell mass pos g1 g2 g3 * ang_cos Rops cell mass pos g1 g2 g3)).
+  Proof.
+    intros Hc. cbn [cvc_jd cvc_value]. set (c := ang_cos Rops cell mass pos g1 g2 g3) in *.
+    assert (Hb : -1 <= c <= 1) by (split; nra).
+    pose proof PI_RGT_0 as Hpi.
+    unfold deg. rs. cbn [nacos ncos nsin Rops].
+    replace (180 / PI * acos c * PI / 180) with (acos c) by (field; lra).
+    assert (Hne : acos c <> 0).
+    { intros E. pose proof (cos_acos c Hb) as C. rewrite E, cos_0 in C. clearbody c. subst c. lra. }
+    destruct (Reqb' (acos c) 0) eqn:E0; [apply Reqb_true in E0; contradiction|].
+    rewrite cos_acos, sin_acos by exact Hb. unfold Rsqr. reflexivity.
+  Qed.
+End AngleJacobian.
+
 (* ================================================================== a concrete system: the premises are satisfiable *)
 Definition ex_mass : nat -> R := fun _ => 1.
 Definition ex_pos : RF := fun a =>
@@ -1497,6 +1520,11 @@ Proof. intros cell mass pos. repeat split.
     destruct (Reqb' (gyr_value Rops pos ids) 0) eqn:E; [apply Reqb_true in E; contradiction|reflexivity].
   - intros ids refs H. cbn [cvc_jd cvc_value]. rs. apply Rltb_true in H. rewrite H. f_equal. ring.
   - intros ids refs rc H. cbn [cvc_jd cvc_value]. rs. apply Rltb_true in H. rewrite H. f_equal. ring. Qed.
+Lemma thm_jacobian_angle : forall (cell : option RV) (mass : nat -> R) (pos : RF) (g1 g2 g3 : RG) (os : bool),
+  ang_cos Rops cell mass pos g1 g2 g3 * ang_cos Rops cell mass pos g1 g2 g3 < 1 ->
+  cvc_jd Rops PI cell mass pos (CAngle g1 g2 g3 os) =
+    PI / 180 * (ang_cos Rops cell mass pos g1 g2 g3 / sqrt (1 - ang_cos Rops cell mass pos g1 g2 g3 * ang_cos Rops cell mass pos g1 g2 g3)).
+Proof. exact angle_jd_closed. Qed.
 
 (* ---- fully instantiated history statements: the premises of the history theorems are satisfiable ---- *)
 Lemma ex_split_ok pos h sb sm kT :
